@@ -39,6 +39,11 @@ def build_larch(ops):
                 a = a.have_modules_with_names_matching(op[1])
         except Exception as e:  # noqa: BLE001
             return None, ("ERR", err_kind(e), i)
+        # reading the definition between two builder calls is harmless (also while a layer is still open)
+        try:
+            _ = a.layer_mapping
+        except Exception:  # noqa: BLE001
+            pass
     return a, None
 
 
@@ -80,6 +85,10 @@ def impl_larch(ops) -> str:
         for n in names:
             fs = a[n]
             listing.append(enc(n) + "~" + ",".join(("R:" if f.identifier_is_regex else "N:") + enc(f.identifier) for f in fs))
+            # the mapping handed to layer rules lists the same modules
+            via_mapping = [x.identifier for x in a.layer_mapping.get_module_filters(n)]
+            if via_mapping != [f.identifier for f in fs]:
+                return f"OK:MAPPING-DIFFERS:{enc(n)}:{','.join(enc(x) for x in via_mapping)} I={len(ops)}"
         s = str(a)
         want = "Layered Architecture: " + "; ".join(f"Layer {n}: [{', '.join(f.identifier for f in a[n])}]" for n in names)
     except Exception as e:  # noqa: BLE001  (the object the history ends with does not list its layers)
